@@ -61,6 +61,27 @@ CLAIMS = {
              "validated against torch every run; values are compared with the implementation (linear/nearest x "
              "zeros/border/constant x Image/batch forms) and with SimpleITK.Resample inside the field of view.",
         ref="5 C05"),
+    "C06": dict(
+        technique="Lean 4 theorems on the model of spatial/base|linear|composite|transformer (parameter->tensor per class, "
+                  "points/disp/matrix views, sequential fold, warp coordinate pipeline for ANY cube map) + correspondence over "
+                  "every transform class",
+        text="28 theorems: default parameters give the identity per class (refuted with witnesses for QuaternionRotation and "
+             "HomogeneousTransform, whose current defaults are not the identity); tensor/matrix/points/world-points/disp views "
+             "describe one map; sequential composites fold in listed order (any length); multi-level composites add "
+             "displacements (refuted for linear members: the code sums matrices); for any cube map T and any (transform, "
+             "target, source) grid triple ImageTransformer samples the source at worldToIndex(W_T(indexToWorld j)). Clauses the "
+             "current code violates are refuted and listed as known findings (F-06a..h).",
+        ref="5 C06"),
+    "C07": dict(
+        technique="Lean 4 per-class inverse theorems + induction over composites, and the forward/inverse parameter-sharing "
+                  "theorem on the transform state machine (Props/C07State) + correspondence over kinds x link x update_buffers",
+        text="14 theorems: T^-1(T x) = x and T(T^-1 x) = x exactly for translation, Euler (all orders), unit quaternion, "
+             "iso/anisotropic scaling, shearing, homogeneous (unit determinant); the invert flag is involutive; sequential "
+             "composites invert in reversed order for any length; forward and inverse read the same parameters for every "
+             "params kind x link x update_buffers after any sequence of in-place edits (and data_ replacement when linked). "
+             "The second-order bound for velocity-field models is proved for scalar generators only (partial) and measured "
+             "on smooth fields (exploration). F-07/F-07b were repaired by fix: commits.",
+        ref="5 C07"),
     "C08": dict(
         technique="Lean 4 theorems over the model of linalg.py/affine.py/_kornia.py (9 operand-form pairs, 27 Euler "
                   "orders, quaternion/angle-axis algebra) + exhaustive correspondence over forms, batch shapes, order strings",
@@ -90,6 +111,16 @@ CLAIMS = {
              "any additive homogeneous stencil; BCH reduces to v+u for commuting fields at every truncation order. "
              "BCH-error-vs-order and the logv(expv v) bound are approximation statements explored numerically (partial).",
         ref="5 C13"),
+    "C09": dict(
+        technique="Lean 4 invariant by induction over all 21 operations of a state-machine model of SpatialTransform / "
+                  "ParametricTransform (shared vs copied containers, version-tagged buffers, links) + exact correspondence "
+                  "on operation histories with version-coded parameters/grids",
+        text="10 theorems: every reachable world satisfies the buffer-tag and allocation invariants; a call after ANY history "
+             "(any length) observes exactly the parameters, grid and conditioning held at that moment, for plain and "
+             "composite transforms; disp right after data_/grid_/condition_/reset reflects the new state; a linked transform "
+             "follows what its source last evaluated; C07's sharing clause. The four defects found (F-07, F-09a, F-15a x3) "
+             "were repaired. Regrid-preserves-world is oracle-only (partial).",
+        ref="5 C09"),
     "C10": dict(
         technique="Lean 4 theorems: representation conversions are the grid's vector maps; expv is conjugate to one "
                   "index-space computation in every representation/convention + correspondence of FlowFields.axes/exp/warp",
@@ -115,8 +146,8 @@ CLAIMS = {
         text="24 theorems: interpolation weights are the analytic basis (and its derivatives) for every stride; partition of "
              "unity, derivative weights sum to zero, linear precision; evaluation = analytic spline; linear coefficients "
              "reproduce the linear function; the two evaluation algorithms agree; control grid covers the image for all "
-             "m,s >= 1; subdivision (masks, repeated, FFD refine crop) leaves the function unchanged. Two clauses the "
-             "current code violates are refuted and listed as known findings.",
+             "m,s >= 1; subdivision (masks, repeated, FFD refine crop) leaves the function unchanged. Both defects found (control grid spacing, 1-D subdivision) "
+             "were repaired by fix: commits.",
         ref="5 C14"),
     "C15": dict(
         technique="Lean 4 soundness/completeness theorem for a storage-write monitor over aten op traces (TorchDispatchMode) + "
@@ -138,6 +169,16 @@ CLAIMS = {
              "violates (tversky_loss TypeError, ncc mask shape, tversky weight shape, MI mask, NMI class) are refuted and "
              "listed as known findings. MI/NMI identical/range need properties of log (partial).",
         ref="5 C16"),
+    "C17": dict(
+        technique="Lean 4 theorems on the regularisers assembled from the C12 stencil model, lame_parameters, "
+                  "inverse_consistency_loss units + correspondence over regularisers x modes x spacings x reductions",
+        text="29 theorems: bending/curvature vanish on affine fields (margin-2 interior for padded schemes, everywhere for "
+             "forward_central_backward) and are invariant under adding one; gradient terms vanish for translations and take "
+             "their closed forms on affine fields; non-negativity; quadratic scaling; spacing powers; linear transforms give "
+             "zero; reductions; seven elastic-constant pairs round-trip (two refuted: F-17a/b); inverse consistency of exact "
+             "inverse pairs is zero; unit factors as coded (refuted for align_corners=False: F-17c). 24 known-finding keys "
+             "(boundary non-zero energies of padded schemes, lame_parameters, units, spline-mode elasticity).",
+        ref="5 C17"),
     "C18": dict(
         technique="Lean 4 theorems on models of the MetaImage header grammar, channel axis shuffle, NIfTI affine/LPS-RAS and "
                   "vector-intent layout + exhaustive format x D x channels x dtype x compress correspondence incl. SimpleITK",
@@ -158,6 +199,16 @@ CLAIMS = {
              "ImageBatch results always have matching grid count/shape (demotion); the full statement is refuted with "
              "small witnesses for each op class the current code mis-describes (13 known findings).",
         ref="5 C19"),
+    "C20": dict(
+        technique="Lean 4 HasDerivAt theorems for closed-form model gradients of polynomial/rational operations + "
+                  "correspondence torch.autograd.grad vs model gradient over Q; autograd-vs-finite-difference exploration",
+        text="23 theorems (Mathlib HasDerivAt via an exact quadratic-remainder expansion): pointwise losses, Dice/Tversky, NCC, "
+             "multilinear sampling w.r.t. values and (away from kinks) coordinates incl. the chain through unnormalize, B-spline "
+             "evaluation, every finite-difference mode and quadratic regularisers, compose/scale-translate/2-D rotation. Nine "
+             "streams compare autograd of the real operation with the model gradient (a detach/round/in-place overwrite changes "
+             "autograd although forward values stay the same). Multi-step expv, logv, MI, LCC, 3-D rotations and transform stacks "
+             "have no model gradient: exploration only (partial). Three known findings (rounding / re-wrapping cuts gradients).",
+        ref="5 C20"),
 }
 
 NOT_APPLICABLE = {}
